@@ -25,11 +25,13 @@ RULE = ("seeded op sequences on direct and bucketed k-mer tables (alphabets of 2
         "INT64_MAX keys); plus a malformed stream (wrong-length masks, out-of-range codes, short queries) and "
         "ScoreThresholdRule vs brute force, similarity rules combined with query and reference ignore masks on "
         "both table kinds (match and match_table), and long k-mers (DNA k=16,17,20,31; 20 letters k=7,8,13: "
-        "create_kmers vs direct fuse, bucketed match/count/match_table). non-trivial = at least one non-empty result or an error branch; "
+        "create_kmers vs direct fuse, bucketed match/count/match_table), similar_kmers itself (`simk`), min-code "
+        "threshold boundaries (compression dividing / not dividing the range), cached vs plain syncmer selector "
+        "(`csynck`) and table __eq__ across content / order / bucket number / kind / spacing. non-trivial = at least one non-empty result or an error branch; "
         "distinct = different op list")
 TRUSTED = ["numpy fancy indexing / argsort / where, pickle: modelled by documented semantics",
-           "ScoreThresholdRule.similar_kmers is modelled at specification level only (all k-mers whose score reaches the "
-           "threshold); its pruning search is tied to that by correspondence and the brute-force oracle"]
+           "ScoreThresholdRule.similar_kmers: the iterative while-loop is modelled as the depth-first recursion it performs "
+           "(bbSearch, proved exact); that refinement step is tied by the `simk` correspondence op and the brute-force oracle"]
 ASSUMPTIONS = ["k-mer codes, positions and reference ids are unbounded naturals in the model (int64/uint32 wrap-around "
                "is not modelled; the generator keeps n^k < 2^63 and positions < 2^32)",
                "MincodeSelector threshold is compared exactly (rational) in the model; float64 rounding of the "
@@ -38,18 +40,22 @@ LEVEL_TEXT = ("proof for all inputs (Lean 4, no size bound, no sorry): the two-p
               "capacity and yields exactly the per-slot filter of the inserted items (direct and bucketed, any "
               "n_buckets >= 1); from_kmers, from_kmer_selection, from_sequences (rolling / spaced k-mer codes = fuse "
               "of every window, for every alphabet the constructor accepts), from_positions and from_tables yield "
-              "the canonical table of their input; match / match_kmer_selection / match_table (join over equal "
-              "k-mers) / count / count() / get_kmers membership / the per-k-mer scan return exactly the stored "
-              "entries with an equal k-mer, unmasked; match exactness is one theorem with the similarity rule as "
-              "a parameter (identical k-mers, or similar under a supplied rule, masked positions excluded; "
-              "ScoreThresholdRule at specification level); pickle round trip on the word layout; contiguous mask; "
-              "minimizer for every window >= 1 and all keys < INT64_MAX (forward/reverse arg-cum-min = leftmost "
-              "window minimum, dedup as in the code); syncmer selection on top of it; min-code threshold. PARTIAL: "
-              "BucketKmerTable.__getitem__ only for k-mer codes < 2^32 (defect witness otherwise); min-code with a "
-              "non-identity permutation and float64 threshold rounding, ascending order of get_kmers, "
-              "CachedSyncmerSelector and the pruning search of ScoreThresholdRule.similar_kmers are tied by "
-              "correspondence / brute-force oracle only. "
-              "Five .pyx defects are modelled as written (_defect witnesses) and listed as known findings.")
+              "the canonical table of their input; match exactness is one theorem with the similarity rule as a "
+              "parameter (identical k-mers, or similar under a supplied rule, masked positions excluded); "
+              "ScoreThresholdRule.similar_kmers (branch-and-bound as DFS recursion) returns exactly the symbol "
+              "strings with score >= threshold given the max-score pruning bound, which the row maxima satisfy; "
+              "match_kmer_selection / match_table (join over equal k-mers) / count / count() complete / get_kmers "
+              "complete and strictly ascending / the per-k-mer scan are exact; __eq__ holds iff same kind, alphabet "
+              "size, k, slot number and slot-wise content; pickle round trip on the word layout; contiguous mask; "
+              "minimizer for every window >= 1 and all keys < INT64_MAX (leftmost window minimum, dedup as in the "
+              "code); syncmer selection on top of it; CachedSyncmerSelector = SyncmerSelector on every valid input; "
+              "min-code for any permutation as a function (none, LCG mod 2^64 with the regenerated constants, "
+              "frequency rank table, custom table) against the exact threshold. PARTIAL / assumptions: "
+              "BucketKmerTable.__getitem__ only for k-mer codes < 2^32 (defect witness otherwise); the float64 "
+              "rounding of the min-code threshold is an assumption pinned by a boundary correspondence stream; that "
+              "the while-loop of similar_kmers performs the modelled DFS, and that FrequencyPermutation's stable "
+              "argsort is the rank order, are tied by correspondence + brute-force oracle. Six .pyx defects are "
+              "modelled as written (_defect witnesses) and listed as known findings.")
 LEVEL_NOTE = ("ScoreThresholdRule.similar_kmers, numpy and pickle are exercised (oracle / correspondence), not proved; "
               "C memory safety beyond the proved capacity invariant is trusted")
 TECHNIQUE = "Lean 4 proof (induction over the insertion sequence with a per-slot invariant) + correspondence"
@@ -62,6 +68,7 @@ K_GETITEM = "C10/bucket-getitem/kmer-code-above-uint32"
 K_MINMAX = "C10/minimizer/order-value-int64-max"
 K_MINCODE_BOOL = "C10/mincode/returns-boolean-mask"
 K_FUSE = "C10/fuse/code-equals-alphabet-length"
+K_EQ_SPACING = "C10/eq/spacing-ignored"
 
 
 # ---------------------------------------------------------------- small formatting helpers (shared canonical text)
@@ -405,6 +412,8 @@ def _run_ops(ops):
             return "ok " + _nats(ka.create_kmers(np.array(_parse_nats(w[1]), dtype=np.uint8)))
         if c == "fuse":
             return f"ok {int(ka.fuse(i64(_parse_nats(w[1]))))}"
+        if c == "simk":
+            return "ok " + _nats(sorted(int(x) for x in mkrule(w[2], w[3]).similar_kmers(ka, int(w[1]))))
         if c == "mask":
             m = np.array(_parse_bits(w[1]), dtype=bool)
             from biotite.sequence.align import kmertable as KT
@@ -495,7 +504,7 @@ def _run_ops(ops):
         if c == "minim":
             sel = align.MinimizerSelector(ka, int(w[1]), mkperm(w[2], ka))
             return pairs(*sel.select_from_kmers(i64(_parse_nats(w[3]))))
-        if c in ("sync", "synck"):
+        if c in ("sync", "synck", "csynck"):
             s = int(w[1])
             offs = tuple(int(x) for x in w[3].split(","))
             smer_alph = align.KmerAlphabet(st["base"], s)
@@ -504,6 +513,8 @@ def _run_ops(ops):
             if c == "sync":
                 return pairs(*sel.select(mkseq(_parse_nats(w[4]))))
             kms = i64(_parse_nats(w[4]))
+            if c == "csynck":
+                return pairs(*align.CachedSyncmerSelector(st["base"], st["k"], s, perm, offs).select_from_kmers(kms))
             plain = pairs(*sel.select_from_kmers(kms))
             if len(ka) <= 700:
                 cached = pairs(*align.CachedSyncmerSelector(st["base"], st["k"], s, perm, offs).select_from_kmers(kms))
@@ -611,6 +622,17 @@ def oracle(case):
                     key = K_FUSE if (len(codes) == k and max(codes) == n) else "C10/fuse/accepted-invalid"
                     bad(op, key, "ERR:AlphabetError", got)
                 continue
+            if c == "simk":
+                q = int(w[1])
+                if q >= size:
+                    if got.startswith("ok"):
+                        bad(op, "C10/similar_kmers/accepted-invalid", "ERR", got)
+                else:
+                    sim = _ref_similar(n, k, w[2], int(w[3]))
+                    exp = "ok " + _nats(x for x in range(size) if sim(q, x))
+                    if got != exp:
+                        bad(op, "C10/similar_kmers/mismatch", exp, got)
+                continue
             if c == "kmers":
                 seq = _parse_nats(w[1])
                 try:
@@ -631,6 +653,7 @@ def oracle(case):
             if c in ("seqs", "kms", "sel", "pos", "merge", "pickle"):
                 exp_items, tainted, err = None, False, False
                 nb = None
+                talph = (n, k, tuple(sorted(sp)) if sp is not None else None)
                 if c in ("seqs", "kms", "sel"):
                     nb = None if w[1] == "d" else int(w[1])
                 if c == "seqs":
@@ -681,29 +704,31 @@ def oracle(case):
                     exp_items = [x for t in ts for x in t["items"]]
                     tainted = any(t["tainted"] for t in ts)
                     nb = ts[0]["nb"]
-                    if any(t["nb"] != nb for t in ts):
+                    talph = ts[0]["alph"]
+                    if any(t["nb"] != nb or t["alph"] != talph for t in ts):
                         err = True
                 elif c == "pickle":
                     i = int(w[1])
                     if i >= len(tables):
                         continue
                     exp_items, tainted, nb = list(tables[i]["items"]), tables[i]["tainted"], tables[i]["nb"]
+                    talph = tables[i]["alph"]
                 if err:
                     if got.startswith("ok"):
                         bad(op, f"C10/{c}/accepted-invalid", "ERR", got)
-                        tables.append({"items": [], "nb": nb, "tainted": True})
+                        tables.append({"items": [], "nb": nb, "tainted": True, "alph": talph})
                     continue
                 if c == "pickle":
                     if got != "ok true":
                         bad(op, "C10/pickle/not-equal", "ok true", got, tainted=False)
                     if got.startswith("ok"):
-                        tables.append({"items": exp_items, "nb": nb, "tainted": tainted})
+                        tables.append({"items": exp_items, "nb": nb, "tainted": tainted, "alph": talph})
                     continue
                 if not got.startswith("ok"):
                     if strict or not got.startswith("ERR"):
                         bad(op, f"C10/{c}/rejected-valid", f"ok {len(exp_items)}", got)
                     continue
-                tables.append({"items": exp_items, "nb": nb, "tainted": tainted})
+                tables.append({"items": exp_items, "nb": nb, "tainted": tainted, "alph": talph})
                 if got != f"ok {len(exp_items)}":
                     bad(op, f"C10/{c}/entry-count", f"ok {len(exp_items)}", got, tainted)
                 continue
@@ -788,7 +813,26 @@ def oracle(case):
                     else:
                         exp = "ok " + _tuples((r2, p2, r1, p1) for (x2, r2, p2) in O["items"] for (x1, r1, p1) in items if x1 == x2)
                 else:
-                    continue       # eq: exercised against the model only
+                    # __eq__: same kind, same k-mer alphabet (incl. spacing), same bucket number, same content per
+                    # slot in insertion order
+                    j = int(w[2])
+                    if j >= len(tables):
+                        continue
+                    O = tables[j]
+                    tainted = tainted or O["tainted"]
+
+                    def layout(tb):
+                        sz = tb["alph"][0] ** tb["alph"][1]
+                        d = {}
+                        for (x, r, p) in tb["items"]:
+                            h = x if tb["nb"] is None else x % min(tb["nb"], sz)
+                            d.setdefault(h, []).append((x, r, p))
+                        return (tb["nb"] is None, None if tb["nb"] is None else min(tb["nb"], sz), d)
+                    same_content = layout(T) == layout(O) and T["alph"][:2] == O["alph"][:2]
+                    exp = "ok " + ("true" if same_content and T["alph"] == O["alph"] else "false")
+                    if got == "ok true" and same_content and T["alph"] != O["alph"]:
+                        bad(op, K_EQ_SPACING, exp, got)
+                        continue
                 if exp == "ERR":
                     if got.startswith("ok"):
                         bad(op, f"C10/{c}/accepted-invalid", "ERR", got)
@@ -809,7 +853,7 @@ def oracle(case):
                 elif got != exp:
                     bad(op, K_MINMAX if I64MAX in order else "C10/minimizer/mismatch", exp, got)
                 continue
-            if c in ("sync", "synck"):
+            if c in ("sync", "synck", "csynck"):
                 s, perm = int(w[1]), w[2]
                 offs = [int(x) for x in w[3].split(",")]
                 order = []
@@ -1081,6 +1125,7 @@ def _table_case(rng):
         n_tables += 1
         ops += queries(m)
         ops.append(f"matchtab {m} {rng.randrange(n_tables)}")
+        ops.append(f"eq {rng.randrange(n_tables)} {rng.randrange(n_tables)}")
         if rng.random() < 0.3:
             ops.append(f"pickle {m}")
             ops.append(f"dump {n_tables}")
@@ -1123,6 +1168,8 @@ def _selector_case(rng):
         else:
             ks = [rng.randrange(n ** k) for _ in range(rng.randint(0, 8))]
             ops.append(f"synck {s} {perm} {','.join(map(str, offs))} {_nats(ks)}")
+            if n ** k <= 130:
+                ops.append(f"csynck {s} {perm} {','.join(map(str, offs))} {_nats(ks)}")
         return {"kind": "selector", "ops": ops}
     k = rng.choice([2, 3])
     size = n ** k
@@ -1221,6 +1268,8 @@ def _simmask_case(rng):
         mask = _mask(rng, len(q)) if rng.random() < 0.75 else None
         mb = _bits(mask) if mask is not None else "-"
         ops.append(f"matchsim 0 {_nats(q)} {mb} {mat} {thr}")
+        if rng.random() < 0.6:
+            ops.append(f"simk {rng.randrange(n ** k)} {mat} {thr}")
         if rng.random() < 0.3:
             ops.append(f"match 0 {_nats(q)} {mb}")
         if rng.random() < 0.5:
@@ -1262,6 +1311,58 @@ def _longk_case(rng):
     return {"kind": "longk", "ops": ops}
 
 
+def _mincode_boundary_case(rng):
+    """Min-code threshold boundary: compression values that do and do not divide the range, codes on both sides
+    of range/compression (pins the float64 threshold against the exact one)."""
+    n, k = rng.choice([(2, 2), (3, 2), (2, 3), (3, 3), (5, 2)])
+    size = n ** k
+    ops = [f"alph {n} {k} -"]
+    for _ in range(3):
+        c = rng.choice([1, 2, 3, 4, 5, 6, 7, 8, 9, size - 1, size, size + 1, 2 * size])
+        c = max(c, 1)
+        kind = rng.choice(["-", "-", "freq", "tab", "rand"])
+        if kind == "-":
+            perm = "-"
+        elif kind == "rand":
+            perm = "rand"
+        elif kind == "freq":
+            perm = "freq:" + _nats(rng.choice([0, 1, 1, 3]) for _ in range(size))
+        else:
+            lo = size // c
+            pool = [lo - 1, lo, lo + 1, 0, size - 1, -1, (size + c - 1) // c]
+            perm = "tab:" + ",".join(str(rng.choice(pool)) for _ in range(size))
+        ops.append(f"minc {c} {perm} {_nats(range(size))}")
+    return {"kind": "mincode-boundary", "ops": ops}
+
+
+def _eq_case(rng):
+    """__eq__ between tables: same / different content, order, bucket number, kind, k, spacing."""
+    n = rng.choice([2, 3])
+    k = rng.choice([2, 3])
+    size = n ** k
+    nb = _nb(rng)
+    ks = [rng.randrange(size) for _ in range(rng.randint(0, 5))]
+    ops = [f"alph {n} {k} -", f"kms {nb} - {_nats(ks)} -"]
+    r = rng.random()
+    if r < 0.25:
+        ops.append(f"kms {nb} - {_nats(ks)} -")                      # identical
+    elif r < 0.45:
+        ops.append(f"kms {nb} - {_nats(reversed(ks))} -")            # same codes at other positions
+    elif r < 0.6:
+        ops.append(f"kms {rng.choice([x for x in ['d', 1, 2, 5] if x != nb])} - {_nats(ks)} -")   # other kind / bucket number
+    elif r < 0.75:
+        half = len(ks) // 2
+        ops.append(f"sel {nb} 0,0 {_nats(range(half))};{_nats(range(half, len(ks)))} {_nats(ks[:half])};{_nats(ks[half:])}")
+    else:
+        sp = sorted(rng.sample(range(k + 2), k))
+        if sp == list(range(k)):
+            sp[-1] += 1
+        ops.append(f"alph {n} {k} {_nats(sp)}")                     # same codes over another spacing model
+        ops.append(f"kms {nb} - {_nats(ks)} -")
+    ops += ["eq 0 1", "eq 1 0", "eq 0 0"]
+    return {"kind": "eq", "ops": ops}
+
+
 def _similarity_case(rng):
     n = rng.choice([2, 3, 4])
     k = rng.choice([2, 3])
@@ -1289,6 +1390,10 @@ def cases(rng, tier):
         yield _simmask_case(rng)
     for _ in range(60 if tier == "quick" else 500):
         yield _longk_case(rng)
+    for _ in range(60 if tier == "quick" else 500):
+        yield _mincode_boundary_case(rng)
+    for _ in range(60 if tier == "quick" else 500):
+        yield _eq_case(rng)
 
 
 def corpus():
